@@ -683,6 +683,8 @@ def profile(name: str, **over) -> Profile:
                               p_tandem=0.01, p_midsig=0.0, bar_numbers=1.0, empty_measures=0.3, p_null_run=0.0, p_blank=0.0),
         'wide_split': dict(max_spines=2, p_split=0.7, p_join=0.1, max_width=14, measures=(1, 3), rows=(4, 9), p_early_term=0.0),
         'long_tokens': dict(max_sigs=35, chord_sizes=(5, 6, 8, 9), long_text=0.3, p_chord=0.3, measures=(1, 3)),
+        # scores without any **kern spine (lyrics, dynamics, harmony, fingering, **root alone or side by side)
+        'no_kern': dict(types=('**text', '**dynam', '**dyn', '**harm', '**mxhm', '**fing', '**root', '**text'), first_kern=False, max_spines=3),
         'tiny': dict(tiny=True, p_sig=0.3, p_pre_gcomment=0.2, p_post_gcomment=0.2, p_tandem=0.0, p_metersym=0.0),
     }[name]
     base = dict(base)
